@@ -9,7 +9,7 @@
      operand = (0 i) | (1 z) | (2 c1 c2 …)
      op = (0 n) evaluate | (1 a value) set_value | (2 n) build            *)
 From Coq Require Import ZArith List String Extraction ExtrOcamlBasic.
-From PV Require Import Lib.Py Extract.Sx Model.Ops Model.Graph Model.GraphExpr.
+From PV Require Import Lib.Py Extract.Sx Model.Ops Model.Graph Model.GraphExpr Model.C05List.
 Import ListNotations.
 Open Scope string_scope.
 
@@ -129,8 +129,24 @@ Definition spec_entry (args : list sx) : sx :=
   | _ => bad_args
   end.
 
+(* evlist (nodes ops addrs): run the history, then evaluate the address list
+   (Model/C05List.v evaluate_list); answer = (values, snapshot of the final state) *)
+Definition evlist_entry (args : list sx) : sx :=
+  match args with
+  | [SL nodes; SL ops; SL addrs] =>
+      match dec_list dec_node nodes, dec_list dec_op ops, sx_zs addrs with
+      | Some ns, Some os, Some l =>
+          let W := mk_wb ns in
+          let s := fst (run W (mk_sem ns) (init W) os) in
+          let '(s1, vs) := evaluate_list W (mk_sem ns) s (map Z.to_nat l) in
+          SL [SL (map enc_val vs); snapshot W s1]
+      | _, _, _ => bad_args
+      end
+  | _ => bad_args
+  end.
+
 Definition table : list entry :=
-  [ E "history" history_entry; E "spec" spec_entry ].
+  [ E "history" history_entry; E "spec" spec_entry; E "evlist" evlist_entry ].
 
 Definition dispatch (name : list Z) (args : list sx) : sx :=
   match lookup table name with
